@@ -1399,8 +1399,10 @@ def run(rep, ctx):
                 lk = lp.get("c", [])
                 init, cond, inc, body = lk[0], lk[2], lk[3], lk[4]
                 ivd = kids(init)[0] if init and kids(init) else None
-                okl = ivd is not None and cv(kids(ivd)[0]) == 0 and render(cond).replace(" ", "") == "%s<%s" % (ivd["name"], bound) and \
-                    render(inc) in ("++" + ivd["name"], ivd["name"] + "++")
+                getter_ = {"num_common_exprs": "num_common_exprs", "num_objs": "num_objs", "n_cons": "num_algebraic_cons", "n_lcons": "num_logical_cons"}[bound]
+                sh_ = loop_shape(csi, lp)
+                okl = ivd is not None and sh_ is not None and sh_["dir"] == "up" and sh_["stepped"] and sh_["rel"] == "<" and sh_["start"] not in (None, "continues") and \
+                    cv(sh_["start"]) == 0 and sh_["var"] == ivd["declId"] and xrender(csi, sh_["bound"], True).replace(" ", "").endswith(getter_ + "()")
                 arg = strip(call_args(ex[0])[0])
                 okl = okl and arg.get("declId") == ivd["declId"]
                 inner = {n["i"] for n in walk(body)}
@@ -1412,7 +1414,7 @@ def run(rep, ctx):
                 bd = [v for v in csi.walk() if v["k"] == "VarDecl" and v.get("name") == bound]
                 getter = {"num_common_exprs": "num_common_exprs", "num_objs": "num_objs", "n_cons": "num_algebraic_cons",
                           "n_lcons": "num_logical_cons"}[bound]
-                okl = okl and len(bd) == 1 and render(kids(bd[0])[0]).endswith(getter + "()")
+                okl = okl and (not bd or (len(bd) == 1 and render(kids(bd[0])[0]).endswith(getter + "()")))
                 ok = okl
                 why = "loop `%s; %s; %s` exports `%s`" % (render(init), render(cond), render(inc), render(arg))
         p2.check(ok, "nl-items|%s" % exn, short_loc(csi.loc), "for i in [0, %s): %s(i) before the conversion of item i" % (bound, exn), why)
